@@ -195,4 +195,30 @@ def tdkgRule (cur : Nat) (state : Option Nat) (w : Wait) : Rule :=
 def tinactRule (cur nonce chainNonce : Nat) (w : Wait) : Rule :=
   tbtcRule cur (decide (chainNonce > nonce)) w
 
+/-! ## tBTC DKG result approval (`executeDkgValidation`): the seats one operator controls -/
+
+def insertNat (a : Nat) : List Nat → List Nat
+  | [] => [a]
+  | b :: rest => if a ≤ b then a :: b :: rest else b :: insertNat a rest
+
+def sortNat (l : List Nat) : List Nat := l.foldr insertNat []
+
+/-- first block of the submitter's precedence period -/
+def precedenceStart (submissionBlock challenge : Nat) : Nat := submissionBlock + challenge + 1
+
+/-- blocks the operator's approval goroutines wait for (observed as a sorted list) -/
+def apprAwaits (submitter p prec : Nat) (seats : List Nat) : List Nat :=
+  sortNat (seats.map (approvalBlock submitter p prec))
+
+/-- a goroutine approves iff nobody else's approval was observed before its block -/
+def apprApprovals (tie : List Kind) (ev : Option Nat) (ws : List Nat) : List Nat :=
+  ws.filter (fun w => !evStop tie w ev)
+
+/-- monitor: distinct approval blocks, the submitter's precedence respected, approvals only at
+    awaited blocks and never after an observed approval -/
+def holdsAppr (p prec k : Nat) (tie : List Kind) (ev : Option Nat) (ws as : List Nat) : Bool :=
+  decide ws.Nodup && decide (ws.length = k) &&
+  ws.all (fun w => decide (w = p) || decide (p + prec ≤ w)) &&
+  decide as.Nodup && as.all (fun a => ws.contains a && !evStop tie a ev)
+
 end KeepVerif.C47
